@@ -174,6 +174,8 @@ def r_value_parser(ctx):
 
 
 def check(ctx):
+    from . import c04
+    c04.group_rule(ctx, 'R15.5', r'^(<value::Value as std::fmt::Display>::fmt.*|types::TypeInner::<A>::display|<witness::(WitnessValues|Arguments) as (std::fmt::Display>::fmt|parse::ParseFromStr>::parse_from_str.*)|value::Value::parse_from_str|witness::<impl parse::ParseFromStr for types::ResolvedType>::parse_from_str)$', 'value/type/map printers and parsers: complete state machines (loop-carried flags havocked) with every call', 8)
     r_maps(ctx)
     r_value_printer(ctx)
     r_value_parser(ctx)
